@@ -154,6 +154,8 @@ class Decoder:
             return self.ev(e["expr"], st)
         if k == "Tup" and not e["elems"]:
             return ("unit",)
+        if k == "Tup":
+            return ("tuple", [self.ev(x, st) for x in e["elems"]])
         if k == "Call":
             return ("unknown", "call")
         if k == "Array":
